@@ -40,6 +40,10 @@ structure XCfg where
   threadsSkipsEsrch : Bool
   /-- threads(): the flag starts as `hit_enoent = False` before the loop -/
   threadsHitStartsFalse : Bool
+  /-- psutil/__init__.py Process.name(): `len(bname) >= N` — from N bytes on the kernel name counts as truncated -/
+  nameExtendMin : Nat
+  /-- Process.name(): `name = extended_name` sits under `if os.fsencode(extended_name).startswith(bname):` -/
+  nameExtendChecksPrefix : Bool
 
 /-! ## `get_terminal_map()` and `terminal()` -/
 
@@ -80,6 +84,22 @@ def terminalCall (cfg : Cfg) (x : XCfg) (cache : Option TMap) (listing : List (B
       | .error e => (.error e, cache)
       | .ok m => (.ok ((tmapToInt m).lookup nr), if x.tmapMemoized then some m else cache)
 
+/-! ## the public `Process.name()` (psutil/__init__.py) on top of the platform `name()` -/
+
+/-- `os.path.basename(p)` = `p[p.rfind('/') + 1:]` -/
+def pyBasename (p : Bytes) : Bytes := pyFrom p (pyRfind 47 p + 1)
+
+/-- The front end's `name()`: `procName` = what `_pslinux.Process.name()` returned (the comm), `arg0` =
+    `cmdline()[0]` when the cmdline list is non-empty (the parsing of the cmdline file is C12's, not
+    modelled here; AccessDenied/ZombieProcess from `cmdline()` behave like an empty list). -/
+def publicName (x : XCfg) (procName : Bytes) (arg0 : Option Bytes) : Bytes :=
+  if x.nameExtendMin ≤ procName.length then
+    match arg0 with
+    | some a =>
+      if !x.nameExtendChecksPrefix || procName.isPrefixOf (pyBasename a) then pyBasename a else procName
+    | none => procName
+  else procName
+
 /-! ## `boot_time()` and `create_time()` -/
 
 /-- `for line in f: if line.startswith(KEY): return float(line.strip().split()[IDX])`, no such
@@ -104,7 +124,7 @@ def bootTimeCall (x : XCfg) (cache : Option Rat) (procStat : Bytes) : Res Rat ×
 
 /-- `Process.create_time()` (platform layer) from the text of both files.
     `ctime = float(parse()['create_time'])` first; then `bt = BOOT_TIME or boot_time()`
-    (a cached 0.0 is falsy and re-reads). -/
+    (a cached 0.0 is falsy and re-reads); the division by CLOCK_TICKS comes last, after BOOT_TIME was pinned. -/
 def createTimeCall (cfg : Cfg) (x : XCfg) (tck : Nat) (cache : Option Rat) (procStat pidStat : Bytes) :
     Res Rat × Option Rat :=
   match parseStat cfg pidStat >>= fun v => pyFloat v.ctime with
@@ -112,13 +132,13 @@ def createTimeCall (cfg : Cfg) (x : XCfg) (tck : Nat) (cache : Option Rat) (proc
   | .ok ctime =>
     match (if x.createUsesCachedBoot then cache else none) with
     | some b =>
-      if b ≠ 0 then (.ok (ctime / tck + b), cache)
+      if b ≠ 0 then ((pyDiv ctime tck).map (· + b), cache)
       else match bootTimeCall x cache procStat with
-        | (.ok bt, c') => (.ok (ctime / tck + bt), c')
+        | (.ok bt, c') => ((pyDiv ctime tck).map (· + bt), c')
         | (.error e, c') => (.error e, c')
     | none =>
       match bootTimeCall x cache procStat with
-      | (.ok bt, c') => (.ok (ctime / tck + bt), c')
+      | (.ok bt, c') => ((pyDiv ctime tck).map (· + bt), c')
       | (.error e, c') => (.error e, c')
 
 /-! ## `threads()`: listing order, vanished threads -/
